@@ -8,7 +8,7 @@
 From Coq Require Import List NArith ZArith Bool.
 From Abasic Require Import Model.Bytes Model.Num Model.Token Model.Data Model.Lexer Gen.Tables
      Model.State Model.Eval Model.Interp Proofs.Monad Proofs.Frames Proofs.StoreProofs Proofs.ResetProofs
-     Proofs.ListProofs.
+     Proofs.ListProofs Proofs.StoreExt Proofs.StoreBehaviour.
 Import ListNotations.
 Local Open Scope N_scope.
 
@@ -34,6 +34,41 @@ Proof. exact reload_listing. Qed.
 Theorem C14_listing_is_list : forall s, store_ok s ->
   list_lines (st_keys s) (st_toks s) = Ok (map (fun l => l ++ [10]) (listing s)).
 Proof. exact listing_is_list_output. Qed.
+
+(* ... and the identical behaviour under RUN: the original interpreter (any
+   idle state holding the program, its output queue drained) and a fresh one
+   into which the LIST output was typed, put into the same flag setting and
+   given the same seed, answer RUN and EVERY later host operation with the
+   same rows — outcome (errors and their lines), interpreter state (input
+   requests), the drained output queue (everything printed, hence every DATA
+   item a program reads and prints), caret, message, reads.  The reloaded
+   store need not be the same list as the original one (its internal order
+   depends on the order of entry); Proofs/StoreExt.v shows that the
+   interpreter cannot tell. *)
+Theorem C14_reload_behaves_alike : forall fuel s w b seed ops,
+  state s = Idle -> outputs s = [] -> store_ok s ->
+  (forall n ts, abs s n = Some ts -> line_roundtrips n ts) ->
+  let s' := run_state fuel (fresh (pow_oracle s)) (map HLine (listing s)) in
+  let session := HFlags w b :: HRand seed :: HLine (bs "RUN") :: ops in
+  Forall2 orow_same (run_ops fuel s session) (run_ops fuel s' session).
+Proof. exact reload_behaves_alike. Qed.
+
+(* non-vacuity of the hypotheses: a program with DATA typed into a fresh interpreter *)
+Example C14_behaves_example :
+  let s := run_state 50 (fresh []) (map (fun t => HLine (bs t)) ["20 READ A : PRINT A;"; "10 DATA 7, ""x y"""]%string) in
+  state s = Idle /\ outputs s = [] /\ store_ok s
+  /\ (forall n ts, abs s n = Some ts -> line_roundtrips n ts).
+Proof.
+  cbn zeta. split; [reflexivity|]. split; [reflexivity|].
+  split; [apply store_ok_reachable, store_ok_init|].
+  intros n ts H. unfold abs in H.
+  match type of H with toks_get n (st_toks ?x) = _ =>
+    let v := eval vm_compute in (st_toks x) in change (st_toks x) with v in H end.
+  cbn [toks_get] in H.
+  destruct (N.eqb_spec 10 n); [subst; inversion H; subst; vm_compute; reflexivity|].
+  destruct (N.eqb_spec 20 n); [subst; inversion H; subst; vm_compute; reflexivity|].
+  discriminate.
+Qed.
 
 (* Token adjacency, decided over the regenerated tables (Gen/Tables.v: keyword
    list in matcher order, one- and two-character operators): every such token
@@ -70,6 +105,7 @@ Proof. exact ex_line_roundtrips. Qed.
 
 Print Assumptions C14_reload_store.
 Print Assumptions C14_list_fixpoint.
+Print Assumptions C14_reload_behaves_alike.
 Print Assumptions C14_listing_is_list.
 Print Assumptions C14_fixed_tokens.
 Print Assumptions C14_fixed_pairs.
